@@ -54,6 +54,34 @@ func generate(P *Program, con *FuncContract) (res *FuncResult) {
 			break
 		}
 	}
+	// anchors that never bound to an instruction of the function are reported (a silently dead
+	// `assert after store x` / `set ... at call f` would otherwise be a vacuity hole)
+	if con != nil && res.Rejected == "" {
+		seen := map[*Clause]bool{}
+		for _, o := range g.obls {
+			if o.Clause != nil {
+				seen[o.Clause] = true
+			}
+		}
+		dead := func(what string, cl *Clause) {
+			o := &Obligation{Name: g.fnName() + "/anchor " + what + "/binding", Kind: "binding", Fn: g.fnName(), Props: con.Props, Reach: "true", Goal: "false", Expect: "unsat", Clause: cl}
+			if cl != nil && len(cl.Props) > 0 {
+				o.Props = cl.Props
+			}
+			o.Result = SolveResult{Status: "missing", Raw: "the anchor never matched an instruction of the function (wrong variable, channel, callee or loop name)"}
+			g.obls = append(g.obls, o)
+		}
+		for _, a := range con.Asserts {
+			if !seen[a.Clause] {
+				dead("assert "+a.Clause.Label, a.Clause)
+			}
+		}
+		for _, s := range con.Sets {
+			if !g.setHits[s] {
+				dead("set "+s.Ghost+" = "+s.Src, nil)
+			}
+		}
+	}
 	res.Obls = g.obls
 	for n := range g.notes {
 		res.Notes = append(res.Notes, n)
@@ -445,6 +473,9 @@ func (g *Gen) ghostSet(fr *Frame, st *State, s *AnchorSet, extra map[string]CV) 
 	if !ok {
 		panic(cerr("set: unknown ghost variable %s", s.Ghost))
 	}
+	if g.setHits != nil {
+		g.setHits[s] = true
+	}
 	env := g.envFor(fr, st)
 	for k, v := range extra {
 		env.vars[k] = v
@@ -615,8 +646,11 @@ func discharge(results []*FuncResult, opts solveOpts) {
 	var jobs []job
 	for _, r := range results {
 		for _, o := range r.Obls {
-			jobs = append(jobs, job{r.Gen, o})
 			oblGen[o] = r.Gen
+			if o.Kind == "binding" {
+				continue // decided at generation time
+			}
+			jobs = append(jobs, job{r.Gen, o})
 		}
 	}
 	ch := make(chan job)
